@@ -141,6 +141,9 @@ func C13(c *sim.Ctx) {
 		appMode: []int{appStable, appStable, appStable, appFresh, appFresh, appVolatile}[t.Draw("app_mode", 6)],
 		maxH:    3,
 	}
+	if cfg.appMode == appVolatile && c.Knobs["volatile_class"] == "0" {
+		cfg.appMode = appStable // class switched off by props knob; the draw is still consumed
+	}
 	nIn := 6 + t.Draw("inputs", 26)
 	c.Logf("config app=%s stride=%d offset=%d inputs<=%d", appName[cfg.appMode], cfg.vs.stride, cfg.vs.off, nIn)
 	defer walworld.Install(nil)
